@@ -419,8 +419,8 @@ main(int argc, char **argv) {
           struct cfg c = {.nstart = ns, .k = k, .split = 0, .bystander = 0, .peer_mode = pm, .max_retx = 2};
           strcpy(c.types, t);
           c.bound = pm == 0 ? (k <= 3 ? 2 : 1) : (k <= 2 ? 2 : 1);
-          if (T)
-            c.bound++;
+          if (T && (k <= 2 || (pm == 1 && k <= 3)))
+            c.bound++; /* (one more deviation on every vector is ~2 million executions more than a thorough budget holds) */
           if (k >= 4 && pm == 1 && !T)
             c.bound = 1;
           add(c);
